@@ -23,6 +23,6 @@ PROP = {
 
 # (category, text, design_ref, technique)
 LEVEL = ("proof",
-         "classify_eq_psabi: for every type of the fragment classify_arg (transcribed arm by arm from x86_64.rs) returns exactly the psABI classification written from the psABI text (flatten to scalar fields with offsets, merge per eightbyte, more than two eightbytes => MEMORY) and never panics; register_assignment_eq_psabi: for every signature over the fragment, any number of parameters, fn_ty_to_abi does not panic and the registers / stack slots Cranelift's System V lowering gives to the signature it builds equal the psABI assignment (register exhaustion => whole argument in memory without consuming registers, results in rax/rdx/xmm0/xmm1, hidden pointer in rdi) - proved by mutual structural induction over types and induction over the parameter list; cast_footprint_within_slot: every register-wide store of a Cast argument/result lands in its spill slot (false before 664a588: witness), cast_load_within_object_{partial,counterexample}: the remaining 4-byte read of a 3-byte object. The pinned tree violated the property (function pointers were NO_CLASS: miscounted registers, struct halves split between r9 and the stack, compiler panic): FIX.patch, with *_pinned_counterexample theorems. Each run ties the model to the code through hook x86_64_sysv_abi on ~10^4 (thorough ~10^5) signatures incl. an exhaustive small domain (0 disagreements required), and validates the whole chain end to end: generated signatures (0-8 parameters, scalars and structs of 1-5 scalar/array fields, 1-64 bytes) compiled by the real CLI and linked with a gcc-compiled C file, both call directions, every leaf value compared.",
+         "classify_eq_psabi: for every type of the fragment classify_arg (transcribed arm by arm from x86_64.rs) returns exactly the psABI classification written from the psABI text (flatten to scalar fields with offsets, merge per eightbyte, more than two eightbytes => MEMORY) and never panics; register_assignment_eq_psabi: for every signature over the fragment, any number of parameters, fn_ty_to_abi does not panic and the registers / stack slots Cranelift's System V lowering gives to the signature it builds equal the psABI assignment (register exhaustion => whole argument in memory without consuming registers, results in rax/rdx/xmm0/xmm1, hidden pointer in rdi) - proved by mutual structural induction over types and induction over the parameter list; cast_footprint_within_slot: every register-wide store of a Cast argument/result lands in its spill slot (false before 664a588: witness), cast_load_within_object_{partial,counterexample}: the remaining 4-byte read of a 3-byte object. The pinned tree violated the property (function pointers were NO_CLASS: miscounted registers, struct halves split between r9 and the stack, compiler panic): FIX.patch, with *_pinned_counterexample theorems. Each run ties the model to the code through hook x86_64_sysv_abi on ~10^4 (thorough ~10^5) signatures incl. an exhaustive small domain and a register-pressure stream (6-14 parameters over i64 / f64 / two-eightbyte structs, biased to one class; added after seeded change C19_1) (0 disagreements required), and validates the whole chain end to end: generated signatures (0-8 parameters, scalars and structs of 1-5 scalar/array fields, 1-64 bytes) compiled by the real CLI and linked with a gcc-compiled C file, both call directions, every leaf value compared.",
          "§4 C19",
          "Lean 4 proof (structural induction over types + induction over parameter lists) + differential correspondence via hook + end-to-end translation validation against host gcc")
